@@ -35,11 +35,10 @@ package consensus
 //@ func verifyMiner   pure
 //@   props C13
 //@   requires header != nil && parent != nil && deputynode.wfManager(dm) && deputynode.cfgOK() && parent.Height < 4294967295
-//@   requires mineTimeout > 0 && mineTimeout <= 1<<32 && header.Time >= 10000000
+//@   requires mineTimeout > 0 && mineTimeout <= 1<<32
 //@   let n = dm.GetDeputiesCount(parent.Height + 1)
 //@   requires n >= 1 && n <= 1<<16
-//@   let g = GetCorrectMiner(parent, int64(header.Time) * 1000, int64(mineTimeout), dm)
-//@   ensures result == nil <==> (res1(g) == nil && res0(g) == header.MinerAddress)
+//@   ensures result == nil <==> (header.Time >= 10000000 && res1(GetCorrectMiner(parent, int64(header.Time) * 1000, int64(mineTimeout), dm)) == nil && res0(GetCorrectMiner(parent, int64(header.Time) * 1000, int64(mineTimeout), dm)) == header.MinerAddress)
 //@   ensures result != nil ==> result == ErrVerifyHeaderFailed
 //@   nopanic
 
@@ -129,6 +128,7 @@ package consensus
 //@ func verifyTxs
 //@   props C04 C02
 //@   requires block != nil && block.Header != nil && wfTxs(block.Txs) && params.MinGasPrice != nil
+//@   modifies nothing
 //@   ensures result == nil ==> !old(txGuard.ExistTxs(block.ParentHash(), block.Txs))
 //@   ensures result == nil ==> forall(i, 0, len(block.Txs), forall(j, 0, len(block.Txs), i != j ==> block.Txs[i].Hash() != block.Txs[j].Hash()))
 //@   ensures result == nil ==> forall(i, 0, len(block.Txs), uint64(block.Time()) <= block.Txs[i].data.Expiration && block.Txs[i].data.Expiration - uint64(block.Time()) <= 1800)
@@ -138,3 +138,85 @@ package consensus
 //@   invariant @loop 1: len(hashes) >= 1 && hashes[0] == tx.Hash() && fresh(hashes)
 //@   invariant @loop 2: 0 <= $k && $k <= len(hashes) && len(hashes) >= 1 && hashes[0] == tx.Hash() && seen != nil && forall(i, 0, $k0, has(seen, block.Txs[i].Hash()))
 //@   invariant @loop 2: $k >= 1 ==> has(seen, tx.Hash()) && forall(i, 0, $k0, block.Txs[i].Hash() != tx.Hash())
+
+// ---------------------------------------------------------------------------------------------------------------------
+// C02: a received block passes VerifyBeforeTxProcess only if every condition the property lists holds, a failing check yields an
+// error (never a panic), and the validator writes nothing but the block's own memo fields.
+// The block store is outside (BeansDB/LevelDB, C08/C09): assumed interface contract. "Known" means GetBlockByHash succeeds.
+//@ func (BlockLoader).GetBlockByHash   pure trusted
+//@   opt reads=heap
+//@   ensures result1 == nil ==> result0 != nil && result0.Header != nil && result0.Header.Height < 4294967295
+
+//@ func verifyParentHash
+//@   props C02
+//@   requires block != nil && block.Header != nil
+//@   modifies nothing
+//@   let p = blockLoader.GetBlockByHash(block.ParentHash())
+//@   ensures result1 == nil <==> res1(p) == nil
+//@   ensures result1 == nil ==> result0 == res0(p)
+//@   ensures result1 != nil ==> result1 == ErrVerifyBlockFailed
+//@   nopanic
+
+//@ func verifyTxRoot
+//@   props C02
+//@   requires block != nil && block.Header != nil
+//@   modifies nothing
+//@   ensures result == nil <==> block.Txs.MerkleRootSha() == block.TxRoot()
+//@   ensures result != nil ==> result == ErrVerifyBlockFailed
+//@   nopanic
+
+//@ func verifyHeight
+//@   props C02
+//@   requires block != nil && block.Header != nil && parent != nil && parent.Header != nil && parent.Header.Height < 4294967295
+//@   modifies nothing
+//@   ensures result == nil <==> block.Height() == parent.Height() + 1
+//@   ensures result != nil ==> result == ErrVerifyHeaderFailed
+//@   nopanic
+
+//@ func verifyTime
+//@   props C02
+//@   requires block != nil && block.Header != nil
+//@   modifies gh("clock", 0)
+//@   ensures result == nil <==> int64(block.Time()) - gh("clock", 0) <= 1
+//@   ensures result != nil ==> result == ErrVerifyHeaderFailed
+//@   nopanic
+
+//@ func verifyExtraData
+//@   props C02
+//@   requires block != nil && block.Header != nil
+//@   modifies nothing
+//@   ensures result == nil <==> len(block.Extra()) <= 256
+//@   ensures result != nil ==> result == ErrVerifyHeaderFailed
+//@   nopanic
+
+// signed by a deputy of the block's term whose registered miner address is the header's
+//@ func verifySigner
+//@   props C02
+//@   requires block != nil && block.Header != nil && deputynode.wfManager(dm) && deputynode.cfgOK()
+//@   modifies block.Header.signerNodeID
+//@   let ds = dm.GetDeputiesByHeight(block.Height(), true)
+//@   ensures result == nil ==> types.recoverOK(block.Hash(), content(block.Header.SignData))
+//@   ensures result == nil ==> exists(i, 0, len(ds), content(ds[i].NodeID) == types.nodeKeyOf(block.Hash(), content(block.Header.SignData)) && ds[i].MinerAddress == block.MinerAddress())
+//@   ensures result != nil ==> result == ErrVerifyHeaderFailed
+//@   nopanic
+
+//@ func (*Validator).VerifyBeforeTxProcess
+//@   props C02
+//@   requires v != nil && block != nil && block.Header != nil && wfTxs(block.Txs) && params.MinGasPrice != nil
+//@   requires deputynode.wfManager(v.dm) && deputynode.cfgOK() && v.dm.DeputyCount <= 65536 && v.mineTimeout > 0 && v.mineTimeout <= 1<<32
+//@   modifies block.Header.signerNodeID, gh("clock", 0)
+//@   let p = v.blockLoader.GetBlockByHash(block.ParentHash())
+//@   let ds = v.dm.GetDeputiesByHeight(block.Height(), true)
+//@   ensures result == nil ==> res1(p) == nil && block.Height() == res0(p).Height() + 1
+//@   ensures result == nil ==> int64(block.Time()) - gh("clock", 0) <= 1 && block.Time() >= res0(p).Time()
+//@   ensures result == nil ==> len(block.Extra()) <= 256
+//@   ensures result == nil ==> block.Txs.MerkleRootSha() == block.TxRoot()
+//@   ensures result == nil ==> types.recoverOK(block.Hash(), content(block.Header.SignData))
+//@   ensures result == nil ==> exists(i, 0, len(ds), content(ds[i].NodeID) == types.nodeKeyOf(block.Hash(), content(block.Header.SignData)) && ds[i].MinerAddress == block.MinerAddress())
+//@   ensures result == nil ==> block.Time() >= 10000000 && res1(GetCorrectMiner(res0(p).Header, int64(block.Time()) * 1000, int64(v.mineTimeout), v.dm)) == nil
+//@   ensures result == nil ==> block.Time() >= 10000000 && res0(GetCorrectMiner(res0(p).Header, int64(block.Time()) * 1000, int64(v.mineTimeout), v.dm)) == block.MinerAddress()
+//@   ensures result == nil ==> !v.txGuard.ExistTxs(block.ParentHash(), block.Txs)
+//@   ensures result == nil ==> forall(i, 0, len(block.Txs), forall(j, 0, len(block.Txs), i != j ==> block.Txs[i].Hash() != block.Txs[j].Hash()))
+//@   ensures result == nil ==> forall(i, 0, len(block.Txs), uint64(block.Time()) <= block.Txs[i].data.Expiration && block.Txs[i].data.Expiration - uint64(block.Time()) <= 1800)
+//@   ensures result != nil ==> result == ErrVerifyBlockFailed || result == ErrVerifyHeaderFailed
+//@   nopanic
